@@ -93,7 +93,9 @@ type c10Req struct {
 	Pre     int32  `json:"pre_ms,omitempty"`   // sched scenarios: delay before Protocol.Invoke is entered (the goroutine is not scheduled)
 	// observations
 	Invoked int    `json:"invoked"`
-	Events  string `json:"events,omitempty"` // sched scenarios: order of S (Invoke entered) R (Invoke returned) T (InvokeTimeout called)
+	SendNs  int64  `json:"send_ns,omitempty"`  // wall clock just before the request was written (not later than its receipt)
+	ReplyNs int64  `json:"reply_ns,omitempty"` // wall clock when its (first) reply was read (not earlier than Invoke's decision); 0 = no reply
+	Events  string `json:"events,omitempty"`   // sched scenarios: order of S (Invoke entered) R (Invoke returned) T (InvokeTimeout called)
 }
 
 type c10Scn struct {
@@ -105,14 +107,17 @@ type c10Scn struct {
 	// halfclose scenarios (TCP): connection 0 carries the blockers and stays open; every other connection sends its
 	// requests StaggerMs later, then shuts down its sending side (FIN) and keeps reading until the server closes
 	HalfClose bool `json:"half_close,omitempty"`
+	// TCP: pause after every write, so that the server's read really ends where the write ended
+	ChunkPauseMs int `json:"chunk_pause_ms,omitempty"`
 	// runs alone in its child, before the concurrent scenarios: its requests must find idle workers and an empty queue
 	Exclusive bool     `json:"exclusive,omitempty"`
 	StaggerMs int      `json:"stagger_ms,omitempty"`
 	Reqs      []c10Req `json:"reqs"`
 	// observations
-	Obs       []B      `json:"obs"`        // every reply the server wrote, in arrival order over all connections
-	ObsConn   []int    `json:"obs_conn"`   // per reply: the connection (socket) it arrived on; request i was sent on connection i mod conns
-	PingCalls int      `json:"ping_calls"` // calls of the servant's own tars_ping during this scenario
+	Obs       []B      `json:"obs"`              // every reply the server wrote, in arrival order over all connections
+	ObsNs     []int64  `json:"obs_ns,omitempty"` // per reply: when it was read
+	ObsConn   []int    `json:"obs_conn"`         // per reply: the connection (socket) it arrived on; request i was sent on connection i mod conns
+	PingCalls int      `json:"ping_calls"`       // calls of the servant's own tars_ping during this scenario
 	Tries     int      `json:"tries"`
 	Retried   []string `json:"retried,omitempty"` // monitor failures of earlier tries that did not reproduce
 	Err       string   `json:"err,omitempty"`     // scenario could not be run (socket errors)
@@ -620,6 +625,7 @@ func c10Monitor(s *c10Scn) []c10Fail {
 	}
 	timingScn := s.Cfg.HT > 0 || s.Kind == "queue" || s.UDP || s.HalfClose || s.Exclusive
 	onConn := map[int32]int{}
+	replyNs := map[int32]int64{}
 	for i := range s.Reqs {
 		onConn[s.Reqs[i].ID] = i % s.Conns
 	}
@@ -636,7 +642,34 @@ func c10Monitor(s *c10Scn) []c10Fail {
 		if oi < len(s.ObsConn) && s.ObsConn[oi] != onConn[r.ID] {
 			out = append(out, c10Fail{"identity/connection", fmt.Sprintf("%s: the reply to request id %d (sent on connection %d of the scenario) arrived on connection %d", where, r.ID, onConn[r.ID], s.ObsConn[oi]), timingScn})
 		}
+		if len(byID[r.ID]) == 0 && oi < len(s.ObsNs) {
+			replyNs[r.ID] = s.ObsNs[oi]
+		}
 		byID[r.ID] = append(byID[r.ID], r)
+	}
+	// the queue-timeout answer, on the clock (Props/C10.v C10_queue_timeout_only_if_waited; sound for every request of
+	// every scenario: the request was received not before it was sent and decided not after its reply was read):
+	// legal only if the request carries a timeout and more than that timeout less one millisecond lies between sending
+	// and the reply - or, with a handle timeout, at least the whole handle timeout
+	for i := range s.Reqs {
+		q := &s.Reqs[i]
+		q.ReplyNs = replyNs[q.ID]
+		if q.ReplyNs == 0 || q.SendNs == 0 {
+			continue
+		}
+		run := c10Script(q)
+		ownCode := run.Class == "impl-error" && run.Code == c10QueueTimeout
+		for _, r := range byID[q.ID] {
+			if r.Tup || r.Ret != c10QueueTimeout || ownCode {
+				continue
+			}
+			span := q.ReplyNs - q.SendNs
+			waited := q.Timeout > 0 && span > (int64(q.Timeout)-1)*1000000
+			lateInvoke := s.Cfg.HT > 0 && span >= int64(s.Cfg.HT)*1000000
+			if !waited && !lateInvoke {
+				out = append(out, c10Fail{"queue-timeout/not-waited", fmt.Sprintf("%s: request id=%d func=%q with timeout=%d ms was answered with the queue-timeout code %.3f ms after it was sent: it cannot have waited longer than its timeout", where, q.ID, q.Func, q.Timeout, float64(span)/1e6), false})
+			}
+		}
 	}
 	if s.PingCalls != 0 {
 		out = append(out, c10Fail{"ping/implementation-invoked", fmt.Sprintf("%s: the servant's own tars_ping was called %d time(s)", where, s.PingCalls), false})
@@ -794,6 +827,15 @@ func c10CoqRun(q *c10Req) string {
 	return fmt.Sprintf("{| h_res := %s; h_dur := %d |}", res, r.Dur)
 }
 
+// the observation window of a request in ns since the scenario's earliest send (keeps the numerals small)
+func c10CoqWindow(q *c10Req) string {
+	if q.SendNs == 0 || q.ReplyNs == 0 || q.ReplyNs < q.SendNs {
+		return "None"
+	}
+	base := q.SendNs - q.SendNs%1000000 // a whole millisecond: truncation is preserved
+	return fmt.Sprintf("(Some (%d, %d))", q.SendNs-base, q.ReplyNs-base)
+}
+
 func c10CoqTrace(s *c10Scn, q *c10Req) string {
 	if s.Kind != "sched" {
 		return "None"
@@ -818,7 +860,7 @@ func c10Coq(s *c10Scn) string {
 				alts = append(alts, fmt.Sprintf("(%d, %d)", a.Queued, c10Script(&a).Dur))
 			}
 		}
-		rs = append(rs, fmt.Sprintf("{| k_pkg := %s; k_queued := %d; k_run := %s; k_alts := [%s]; k_trace := %s; k_counted := %s; k_invoked := %d |}", hx(q.Pkg), q.Queued, c10CoqRun(q), strings.Join(alts, "; "), c10CoqTrace(s, q), coqBool(c10Scripted(q.Func) && c10IsKnownVer(q.Ver)), q.Invoked))
+		rs = append(rs, fmt.Sprintf("{| k_pkg := %s; k_queued := %d; k_run := %s; k_alts := [%s]; k_trace := %s; k_window := %s; k_counted := %s; k_invoked := %d |}", hx(q.Pkg), q.Queued, c10CoqRun(q), strings.Join(alts, "; "), c10CoqTrace(s, q), c10CoqWindow(q), coqBool(c10Scripted(q.Func) && c10IsKnownVer(q.Ver)), q.Invoked))
 	}
 	return fmt.Sprintf("{| k_cfg := {| c_pool := %d; c_ht := %d; c_udp := %s |}; k_reqs := [%s]; k_obs := %s |}",
 		s.Cfg.Pool, s.Cfg.HT, coqBool(s.UDP), strings.Join(rs, ";\n   "), hxB(s.Obs))
@@ -960,6 +1002,9 @@ func c10GenPlain(rng *rand.Rand, cfg c10Cfg, udp bool, tier string) c10Scn {
 		}
 		c10Encode(&q)
 		s.Reqs = append(s.Reqs, q)
+	}
+	if !udp && rng.Intn(4) == 0 {
+		c10SplitHeaders(&s)
 	}
 	return s
 }
@@ -1111,11 +1156,16 @@ func c10GenRaceQueue(rng *rand.Rand, cfg c10Cfg, udp bool, tier string) c10Scn {
 
 // schedules of the handle-timeout race, recorded: the scenario's server is a transport.TarsServer around a wrapper of the
 // real Protocol that logs when Invoke is entered / returns and when InvokeTimeout is called, and can hold Invoke back
-// before it is entered (the goroutine is not scheduled for a while). One request per connection.
+// before it is entered (the goroutine is not scheduled for a while). One request per connection, or pipelined.
 func c10GenSched(rng *rand.Rand, cfg c10Cfg, udp bool, tier string) c10Scn {
 	s := c10Scn{Cfg: cfg, UDP: udp, Kind: "sched", Chunks: []int{4096}}
 	n := 4 + rng.Intn(3)
 	s.Conns = n
+	if rng.Intn(2) == 0 {
+		// several requests pipelined on one connection: their handlers interleave, each with a Current of its own; every
+		// request's recorded order is validated on its own (Props/C10.v C10_connection_projection)
+		s.Conns = 1 + rng.Intn(2)
+	}
 	ids := c10DistinctIDs(rng, n)
 	for i := 0; i < n; i++ {
 		q := c10GenReq(rng, cfg, ids[i])
@@ -1138,6 +1188,23 @@ func c10GenSched(rng *rand.Rand, cfg c10Cfg, udp bool, tier string) c10Scn {
 		s.Reqs = append(s.Reqs, q)
 	}
 	return s
+}
+
+// TCP writes that end 1, 2, 3 (cyclically) bytes into the length header of the next request of connection 0, with a
+// pause after each: the server's read returns a complete request followed by a partial header
+func c10SplitHeaders(s *c10Scn) {
+	s.Conns, s.Chunks, s.ChunkPauseMs = 1, nil, 30
+	for i := range s.Reqs {
+		n := len(s.Reqs[i].Pkg)
+		k := i%3 + 1
+		if i == 0 {
+			s.Chunks = append(s.Chunks, n+k)
+		} else if i == len(s.Reqs)-1 {
+			s.Chunks = append(s.Chunks, 1<<20)
+		} else {
+			s.Chunks = append(s.Chunks, n-((i-1)%3+1)+k)
+		}
+	}
 }
 
 // fixed scenarios run first on every run: the witnesses of the refuted statements and of the repaired defects
@@ -1167,7 +1234,38 @@ func c10Corpus() []c10Scn {
 		}
 		id++
 		reqs = append(reqs, c10Req{Ver: ver, PType: c10OneWay, ID: id, Func: "notify", Kind: c10KTarsErr, Code: 4242, Msg: boom})
+		for k, fn := range c10ShapeNames { // one-way calls that succeed: nothing may come back although the dispatcher fills a response
+			reqs = append(reqs, c10Req{Ver: ver, PType: c10OneWay, ID: id + 100 + int32(k), Func: fn, Kind: c10KOk, Code: 7, Msg: boom})
+		}
 		shapes = append(shapes, mk(c10Cfg{0, 0}, ver == c10VerTup, reqs...))
+	}
+	// the two timeout clauses over every version x way x transport, on every run (the random scenarios leave cells empty):
+	// queue timeout behind a blocker (pool 1), and handlers overrunning the handle timeout (no pool: all at once)
+	ways := []int8{c10Normal, c10OneWay, 5}
+	for _, udp := range []bool{false, true} {
+		qs := []c10Req{{Ver: c10VerTars, ID: 2000, Func: "calc", SleepMs: 500, Role: "blocker"}}
+		var hs []c10Req
+		id := int32(2000)
+		for _, ver := range []int16{c10VerTars, c10VerTup, c10VerJSON} {
+			for k, pt := range ways {
+				id++
+				qs = append(qs, c10Req{Ver: ver, PType: pt, ID: id, Func: c10ShapeNames[(k+int(ver))%len(c10ShapeNames)], Timeout: int32(40 * (k + 1)), Queued: 500, Role: "queued", Msg: boom})
+				hs = append(hs, c10Req{Ver: ver, PType: pt, ID: id, Func: c10ShapeNames[(k+int(ver)+2)%len(c10ShapeNames)], SleepMs: 750, Kind: int32(k), Code: 9, Msg: boom})
+			}
+		}
+		q := mk(c10Cfg{1, 0}, udp, qs...)
+		q.Kind = "queue"
+		shapes = append(shapes, q, mk(c10Cfg{0, 250}, udp, hs...))
+	}
+	// pipelined requests cut inside the next request's length header (TCP), without and with a worker pool
+	for _, cfg := range []c10Cfg{{0, 0}, {1, 0}} {
+		var rs []c10Req
+		for k := int32(0); k < 5; k++ {
+			rs = append(rs, c10Req{Ver: []int16{c10VerTars, c10VerJSON, c10VerTup}[k%3], ID: 3000 + k, Func: c10ShapeNames[k%5], Kind: k % 3, Code: 11, Msg: boom})
+		}
+		sp := mk(cfg, false, rs...)
+		c10SplitHeaders(&sp)
+		shapes = append(shapes, sp)
 	}
 	return append(shapes, []c10Scn{
 		// Props/C10.v C10_error_code_on_wire_refuted (tup_error_witness): TUP, id 7, *tars.Error{78, "boom"}; and the same
@@ -1207,7 +1305,7 @@ func c10Configs(tier string) []c10Cfg {
 
 func c10Gen(tier string, rng *rand.Rand) []c10Scn {
 	var out []c10Scn
-	nt, nu, nq, nr, ns, nh, no := 12, 6, 4, 2, 2, 2, 2
+	nt, nu, nq, nr, ns, nh, no := 8, 4, 3, 2, 2, 2, 2
 	if tier == "thorough" {
 		nt, nu, nq, nr, ns, nh, no = 90, 36, 12, 8, 8, 8, 10
 	}
